@@ -81,6 +81,29 @@ def accept_set(ctx, spec, keys, allowed, names=None, targets="nonfalse", init=No
             out.append(ctx.err(spec, "cannot decide accept-set of %s: it selects an entry of a table (`%s`), which the interval analysis does not interpret" % (
                 label, ast.unparse(lookups[0])[:60]), lookups[0], mod))
             continue
+        # the tracked value is handed to a function of the repository that can refuse it (it contains a raise) and that the analysis did not
+        # look into (no callee summary): the accept-set above ignores that refusal, so nothing is concluded
+        refusers = []
+        if callee_accept is None:
+            r_ = repo or ctx.repo
+            for x in ast.walk(fn):
+                if not isinstance(x, ast.Call) or not any(ast.unparse(a) == k for a in list(x.args) + [kw.value for kw in x.keywords]):
+                    continue
+                tgt = None
+                if isinstance(x.func, ast.Name):
+                    rn = r_.resolve_name(mod.name, x.func.id)
+                    if rn and rn[1] in r_.modules[rn[0]].functions:
+                        tgt = r_.modules[rn[0]].functions[rn[1]]
+                elif isinstance(x.func, ast.Attribute) and isinstance(x.func.value, ast.Name) and x.func.value.id in ("self", "cls") and "." in spec.split(":")[1]:
+                    rm = r_.resolve_method(mod.name, spec.split(":")[1].split(".")[0], x.func.attr)
+                    if rm:
+                        tgt = rm[1]
+                if tgt is not None and any(isinstance(y, ast.Raise) for y in ast.walk(tgt)):
+                    refusers.append(x)
+        if refusers:
+            out.append(ctx.err(spec, "cannot decide accept-set of %s: the value is handed to `%s`, which can refuse it and was not looked into" % (label, ast.unparse(refusers[0])[:60]),
+                               refusers[0], mod))
+            continue
         extra = acc.minus(allowed)
         w = _residue_witness(fn, ra, k, extra, tnodes, prefer)
         if w is None:
